@@ -1930,6 +1930,11 @@ impl Fs {
             match op {
                 // Directory's own creation
                 PendingOp::CreateDir { path: p, .. } if p == path => true,
+                // ... together with any earlier removal of the same name, so
+                // that flushing the creation cannot jump over a pending
+                // `RemoveDir` of this very path and leave it behind to delete
+                // the directory that was just made durable.
+                PendingOp::RemoveDir { path: p } if p == path => true,
                 // Files/dirs/symlinks/hardlinks created in this directory
                 PendingOp::CreateFile { path: p, .. } => p.parent() == Some(path),
                 PendingOp::CreateDir { path: p, .. } => p.parent() == Some(path),
@@ -1980,6 +1985,10 @@ impl Fs {
                 }
                 PendingOp::RemoveDir { path: p } if p.parent() == Some(path) => {
                     dir_modified = true;
+                    self.synced_entries.swap_remove(p);
+                }
+                PendingOp::RemoveDir { path: p } if p == path => {
+                    // An earlier incarnation of this directory (see above).
                     self.synced_entries.swap_remove(p);
                 }
                 PendingOp::Rename { from, to } => {
